@@ -43,7 +43,7 @@ type c02Image struct {
 // itself SIGKILL right before driver-level operation number `op` of block `height`.
 func KillTest(chain string, height uint32, op int, dbpath string) {
 	var cov Coverage
-	for _, cv := range []Coverage{CoverageLegacy(), Coverage2x()} {
+	for _, cv := range []Coverage{CoverageLegacy(), Coverage2x(), CoverageAcross100()} {
 		if cv.Name == chain {
 			cov = cv
 		}
@@ -89,7 +89,7 @@ func c02Dump(dbfile string, wal bool) (canon.Dump, error) {
 
 func runC02(c *core.Ctx, r *core.Result) {
 	covs := []Coverage{CoverageLegacy(), Coverage2x()}
-	for _, cov := range covs {
+	for _, cov := range append(covs, CoverageAcross100()) {
 		c02Chain(c, r, cov, false)
 	}
 	if c.Thorough() {
